@@ -317,6 +317,17 @@ def judge_traces(traces, pid, module="TraceForest", cfg="TraceForest.cfg", label
     return rejects, Sum
 
 
+def _limit_worker_memory():
+    """A library call that builds an ever-growing structure (a change under test may do that) ends in MemoryError in the
+    worker instead of exhausting the machine."""
+    import resource
+    lim = 6 * 1024 ** 3
+    try:
+        resource.setrlimit(resource.RLIMIT_AS, (lim, lim))
+    except (ValueError, OSError):
+        pass
+
+
 def parallel(func, items, nproc=None, chunk=None, timeout=2400):
     """Run func(list_chunk) -> result over chunks of items in forked workers; returns list of results."""
     import multiprocessing as mp
@@ -329,7 +340,7 @@ def parallel(func, items, nproc=None, chunk=None, timeout=2400):
     if nproc == 1 or len(chunks) == 1:
         return [func(c) for c in chunks]
     ctx = mp.get_context("fork")
-    with ctx.Pool(nproc) as pool:
+    with ctx.Pool(nproc, initializer=_limit_worker_memory) as pool:
         try:
             return pool.map_async(func, chunks).get(timeout=timeout)
         except mp.TimeoutError:
